@@ -24,13 +24,14 @@ RULE = (
     ":constraint X: fields, carrying fragments such as \" ' \"\"\" ''' \\ \\u */ /* // < & --> ]]> </summary> {@link x} ${x} ` "
     "(also as the last characters of a description and inside constraint identifiers); invariant messages, enumeration "
     "literal values, string constants and string sets with quote/backslash/template/format fragments. Every fragment is "
-    "preceded by a unique marker word. 60% 'single' models: all description fragments from one fragment class and one "
-    "form, all value fragments from one class (precise attribution); 40% 'mixed' models: all classes together except "
-    "the triggers of the defects already found, so that the search goes on behind them. Only models accepted by the "
+    "preceded by a unique marker word. 50% 'single' models: all description fragments from one fragment class and one "
+    "form, all value fragments from one class (precise attribution; terminator-like classes weighted up); 25% 'mixed' "
+    "models: all classes together; 25% 'mixed' without the triggers of the defects already found (a double quote, "
+    "*/, backslash-u, trailing backslash in descriptions), so that the search goes on behind them. Only models accepted by the "
     "front end count; per target main.execute must succeed (else counted as excluded, belongs to C02). Oracle per "
     "generated file: Python compile(); TypeScript node-22 parser (module.stripTypeScriptTypes transform); Java JDK "
     "parser (JavacTask.parse via drivers/ParseOnly.java); C++ g++ -std=c++17 -fsyntax-only on a translation unit "
-    "including all generated headers plus the model-dependent .cpp files (quick: 6 models, thorough: every 4th; only "
+    "including all generated headers plus the model-dependent .cpp files (quick: 6 models, thorough: every 6th model, every 60th with all translation units; only "
     "lexer/parser diagnostics count, others are counted as inconclusive) and the rule that a // comment line must not "
     "end in a backslash followed by a non-comment line; JSON json.loads; XSD xml.etree; C# and Go spec-derived lexers; "
     "C# /// blocks parsed as XML fragments. A file that fails is re-generated from the same model with every fragment "
@@ -89,10 +90,12 @@ def is_known_trigger(fragment: str, where: str, form: str) -> bool:
 
 @st.composite
 def cases(draw: Any) -> Dict[str, Any]:
-    single = draw(st.integers(0, 4)) < 3
+    mode = draw(st.sampled_from(["single", "single", "mixed-without-known-triggers", "mixed"]))
     adversarial = draw(st.sampled_from([0.25, 0.45, 0.6]))
-    if single:
+    if mode == "single":
         ts = draw(c20_gen.text_specs(max_classes=4, adversarial=adversarial, single=True))
+    elif mode == "mixed":
+        ts = draw(c20_gen.text_specs(max_classes=4, adversarial=adversarial))
     else:
         ts = draw(c20_gen.text_specs(max_classes=4, adversarial=adversarial, avoid=is_known_trigger))
     return {"ts": ts}
@@ -339,7 +342,10 @@ def evaluate(case: Dict[str, Any], base: pathlib.Path, notes: Dict[str, Any]) ->
             root = d / "out"
             res["classes"].append(f"{target}:generated")
             level = cpp_level if target == "cpp" else 0
-            diags = first_per_file(check_target_output(target, root, level, base, notes))
+            try:
+                diags = first_per_file(check_target_output(target, root, level, base, notes))
+            except c20_parse.ToolError as e:
+                raise runner.HarnessError(f"tool of the harness is missing or broken: {e}")
             # which markers reached this target's files?
             blob = []
             for rel in list_files(root, TARGET_EXT[target]):
@@ -411,7 +417,7 @@ def make_case(ts: c20_gen.TextSpec, cpp_level: int) -> Dict[str, Any]:
 
 
 def shard(ctx: runner.Ctx) -> None:
-    n = ctx.n(160, 8000)
+    n = ctx.n(160, 6000)
     counter = {"i": 0}
     notes = {}  # type: Dict[str, Any]
 
@@ -420,9 +426,9 @@ def shard(ctx: runner.Ctx) -> None:
         i = counter["i"]
         counter["i"] += 1
         if ctx.quick:
-            cpp_level = 1 if (i == 0 and ctx.shard < 6) else 0
+            cpp_level = 1 if (i == 1 and ctx.shard < 6) else 0  # (example 0 of a Hypothesis run is the minimal one)
         else:
-            cpp_level = (2 if i % 40 == 0 else 1) if i % 4 == 0 else 0
+            cpp_level = (2 if i % 60 == 0 else 1) if i % 6 == 0 else 0
         case = make_case(ts, cpp_level)
         res = evaluate(case, ctx.scratch, notes)
         for ex in res["excluded"]:
@@ -433,7 +439,7 @@ def shard(ctx: runner.Ctx) -> None:
         classes += sorted({f"text:{p.where}" for p in ts.plants})
         classes += sorted({f"fragment:{fragment_class(p.fragment, p.form)}" for p in ts.plants})
         classes += sorted({f"form:{p.form}" for p in ts.plants})
-        classes.append(f"mode:{ts.mode}")
+        classes.append(f"mode:{ts.mode}" + ("-without-known-triggers" if ts.avoided_known else ""))
         if cpp_level:
             classes.append(f"cpp-compiled-level-{cpp_level}")
         nt = res["accepted"] and len(res["reached"]) > 0
